@@ -284,6 +284,18 @@ class StrExec:
                     return float(v) if name == 'float' else int(v)
                 except ValueError:
                     raise EvalRaise('ValueError')
+            if isinstance(n.func, ast.Attribute) and n.func.attr == 'pop' and isinstance(n.func.value, ast.Name) and not n.keywords \
+                    and len(n.args) in (1, 2) and isinstance(self.env.get(n.func.value.id, UNKNOWN), dict) and n.func.value.id not in self.frozen:
+                d_ = self.env[n.func.value.id]
+                k_ = self.ev(n.args[0])
+                if k_ is UNKNOWN or isinstance(k_, (list, dict)):
+                    self.env[n.func.value.id] = UNKNOWN
+                    return UNKNOWN
+                if k_ in d_:
+                    return d_.pop(k_)
+                if len(n.args) == 2:
+                    return self.ev(n.args[1])
+                raise EvalRaise('KeyError')
             if isinstance(n.func, ast.Attribute) and n.func.attr in STR_METHODS + ('get',) and not n.keywords:
                 v = self.ev(n.func.value)
                 a = [self.ev(x) for x in n.args]
@@ -518,6 +530,11 @@ class StrExec:
             self.env[s.targets[0].id] = self.ev(s.value)
             self.defs[s.targets[0].id] = src(s.value)
             return
+        if isinstance(s, ast.AnnAssign) and isinstance(s.target, ast.Name) and s.value is not None:
+            if s.target.id not in self.frozen:
+                self.env[s.target.id] = self.ev(s.value)        # cdef T x = value
+                self.defs[s.target.id] = src(s.value)
+            return
         if isinstance(s, ast.AugAssign) and isinstance(s.target, ast.Name) and isinstance(s.op, ast.Add):
             cur = self.env.get(s.target.id, UNKNOWN)
             v = self.ev(s.value)
@@ -645,7 +662,41 @@ class StrExec:
         if isinstance(s, (ast.Assign, ast.AugAssign, ast.AnnAssign)):
             self.forget([s])
             return      # other stores into attributes / subscripts are irrelevant to the tracked strings
+        if isinstance(s, ast.While) and not self.writes_tracked([s]) and not s.orelse:
+            # a few passes while the test is known to hold; once it is not known, whatever the loop assigns is unknown
+            for _ in range(3):
+                t = self.ev(s.test)
+                if t is UNKNOWN or isinstance(t, Hole):
+                    break
+                if not t:
+                    return
+                try:
+                    self.run(s.body)
+                except _Continue:
+                    continue
+                except _Break:
+                    return
+                if self.aborted or self.finished:
+                    return
+            self.forget([s])
+            return
         if isinstance(s, (ast.While, ast.With)):
             if self.writes_tracked([s]):
                 raise AnalysisError('tracked string written inside unsupported statement at line %s' % s.lineno)
+            return
+        if isinstance(s, (ast.Global, ast.Nonlocal)):
+            return
+        if isinstance(s, ast.Delete):
+            for t in s.targets:
+                if isinstance(t, ast.Subscript) and isinstance(t.value, ast.Name) and isinstance(self.env.get(t.value.id, UNKNOWN), dict) \
+                        and t.value.id not in self.frozen:
+                    k_ = self.ev(t.slice)
+                    if k_ is UNKNOWN or isinstance(k_, (list, dict)):
+                        self.env[t.value.id] = UNKNOWN
+                    elif k_ in self.env[t.value.id]:
+                        del self.env[t.value.id][k_]
+                    else:
+                        raise EvalRaise('KeyError')
+                else:
+                    self.forget([s])
             return
